@@ -255,3 +255,57 @@ def check_contract(c, p, out, label):
                 if fact is not None:
                     check(fact(p), label + ": raises " + cls.__name__ + " => its condition")
         check(matched, label + ": raises only the declared exception classes")
+
+
+def all_of(*conds):
+    """Conjunction without short-circuit forking."""
+    return all(bool(c) for c in conds)
+
+
+def any_of(*conds):
+    return any(bool(c) for c in conds)
+
+
+def is_list_of_str(v):
+    return isinstance(v, list) and all(isinstance(x, str) for x in v)
+
+
+def is_url_str(v):
+    return isinstance(v, str) and v.startswith(("http://", "https://"))
+
+
+def is_strict_int(v):
+    return isinstance(v, int) and not isinstance(v, bool)
+
+
+def spec_hmac(hname, key, msg):
+    import hmac as _hmac
+    import hashlib as _hashlib
+    return _hmac.new(key, msg, getattr(_hashlib, hname)).digest()
+
+
+def spec_json_ok(b):
+    import json as _json
+    try:
+        _json.loads(b)
+        return True
+    except (ValueError, TypeError, RecursionError):
+        return False
+
+
+def spec_json_parse(b):
+    import json as _json
+    return _json.loads(b)
+
+
+def spec_b64u_ok(b):
+    from joserfc.util import urlsafe_b64decode
+    try:
+        urlsafe_b64decode(b)
+        return True
+    except Exception:
+        return False
+
+
+def spec_utf8(s):
+    return s.encode("utf-8")
